@@ -41,7 +41,7 @@ PROP = {'rule': 'rapid-generated cases. validating: a pod (QoS label in {LSE,LSR
            {'name': 'mutating',
             'pkg': 'pkg/webhook/pod/mutating',
             'files': ['C13/c13_mutating_test.go'],
-            'tests': [{'run': 'TestVerifC13Mutating', 'quick': 2000, 'quick_shards': 2, 'thorough': 25000}]}],
+            'tests': [{'run': 'TestVerifC13Mutating', 'quick': 2000, 'quick_shards': 2, 'thorough': 20000, 'shrinktime': '15s', 'env': {'GOGC': '400'}}]}],
  'manifest': {'technique': 'property-based testing (rapid): generated pods / update pairs against an independent admission predicate, and '
                            'generated pods x colocation-profile sets against an exact-arithmetic model of the tier translation with '
                            'annotation-vs-spec and re-admission (idempotence) relations',
